@@ -227,8 +227,14 @@ def main(argv=None):
     else:
         ctx = multiprocessing.get_context("fork")
         with ctx.Pool(jobs, maxtasksperchild=int(os.environ.get("VERIF_TASKS_PER_CHILD", "64"))) as pool:
+            stop_first = os.environ.get("VERIF_STOP_AT_FIRST") == "1"  # evaluation of changed trees only: first report is enough
+            fnd = load_findings() if stop_first else None
             for r in pool.imap_unordered(_worker, [(modname, units[i]) for i in order], chunksize=1):
                 acc.merge(r)
+                if stop_first and any(match_finding(prop, v["fp"], fnd) is None for v in acc.viol.values()):
+                    acc.notes.append("stopped at the first violation (VERIF_STOP_AT_FIRST=1): coverage figures are partial")
+                    pool.terminate()
+                    break
     extra = {}
     try:
         extra = mod.finish(acc, a.tier, seed) or {}
